@@ -124,7 +124,7 @@ fn stats_json(st: &JobStats) -> Value {
 }
 
 fn choices_json(c: &[Choice]) -> Value {
-    Value::Array(c.iter().map(|c| json!([c.chosen, c.n])).collect())
+    Value::Array(c.iter().map(|c| json!([c.chosen, c.n, if c.free { 1 } else { 0 }])).collect())
 }
 
 pub fn choices_from_json(v: &Value) -> Vec<Choice> {
@@ -136,6 +136,7 @@ pub fn choices_from_json(v: &Value) -> Vec<Choice> {
                     n: x[1].as_u64().unwrap_or(1) as u16,
                     who: u32::MAX - 1,
                     asleep: 0,
+                    free: x.get(2).and_then(|f| f.as_u64()).unwrap_or(0) == 1,
                 })
                 .collect()
         })
